@@ -28,10 +28,27 @@ func kindOf(t types.Type) kind {
 		if n, ok := p.Elem().(*types.Named); ok && n.Obj().Pkg() != nil && n.Obj().Pkg().Path() == "math/big" && n.Obj().Name() == "Int" {
 			return kind{k: "bigint"}
 		}
+		if n, ok := p.Elem().(*types.Named); ok && n.Obj().Pkg() != nil && n.Obj().Pkg().Path() == "math/big" && n.Obj().Name() == "Float" {
+			return kind{k: "bigfloat"}
+		}
+		e := kindOf(p.Elem())
+		switch e.k {
+		case "int", "string", "float", "time", "iface":
+			return kind{k: "ptr", elem: &e}
+		}
 		return kind{k: "other"}
 	}
 	if n, ok := t.(*types.Named); ok && n.Obj().Pkg() == nil && n.Obj().Name() == "error" {
 		return kind{k: "error"}
+	}
+	if n, ok := t.(*types.Named); ok && n.Obj().Pkg() != nil && n.Obj().Pkg().Path() == "time" && n.Obj().Name() == "Time" {
+		return kind{k: "time"}
+	}
+	if n, ok := t.(*types.Named); ok && n.Obj().Pkg() != nil && n.Obj().Pkg().Path() == "math/big" && n.Obj().Name() == "Int" {
+		return kind{k: "bigintval"}
+	}
+	if n, ok := t.(*types.Named); ok && n.Obj().Pkg() != nil && n.Obj().Pkg().Path() == "math/big" && n.Obj().Name() == "Float" {
+		return kind{k: "bigfloatval"}
 	}
 	switch u := t.Underlying().(type) {
 	case *types.Basic:
@@ -58,6 +75,14 @@ func kindOf(t types.Type) kind {
 			return kind{k: "int", bits: 8, signed: false}
 		case types.UntypedInt:
 			return kind{k: "int", bits: 0, signed: true}
+		case types.Float32:
+			return kind{k: "float", bits: 32}
+		case types.Float64:
+			return kind{k: "float", bits: 64}
+		case types.UntypedFloat:
+			return kind{k: "float", bits: 0}
+		case types.UntypedNil:
+			return kind{k: "nil"}
 		}
 	case *types.Slice:
 		e := kindOf(u.Elem())
@@ -66,14 +91,25 @@ func kindOf(t types.Type) kind {
 		if t.String() == "error" {
 			return kind{k: "error"}
 		}
+		if u.NumMethods() == 0 {
+			return kind{k: "iface"}
+		}
 	}
 	return kind{k: "other"}
 }
 
 func (k kind) coqType() string {
 	switch k.k {
-	case "int", "bigint":
+	case "int", "bigint", "float", "bigintval":
 		return "Z"
+	case "bigfloat", "bigfloatval":
+		return "bigfloat"
+	case "time":
+		return "gotime"
+	case "iface":
+		return "goval"
+	case "ptr":
+		return "(option " + k.elem.coqType() + ")"
 	case "bool":
 		return "bool"
 	case "string":
@@ -138,6 +174,285 @@ type tr struct {
 	fn    *ast.FuncDecl
 	sig   *types.Signature
 	where func(ast.Node) string
+
+	// extensions for functions with named results, type switches and stores through a destination
+	named     []namedRes        // named results, in order
+	optVars   map[string]bool   // variables held as an option (nil-able pointers)
+	nonNil    map[string]int    // pointer variables known to be non-nil at the current point
+	nilAlias  map[string]string // boolean variable -> pointer variable it was last assigned "<ptr> == nil"
+	destNil   map[string]bool   // type-switch variables of a destination switch: the Gallina variable is "pointer is nil"
+	destParam string            // name of the interface{} parameter stores go through ("" if none)
+	storeVar  string            // Gallina variable holding what has been stored through the destination
+	dropped   map[string]bool   // parameters with no Gallina counterpart (only allowed inside error constructors)
+	usesO     bool              // the body calls an oracle
+	ext       bool              // extended subset (numeric unit); the original subset is unchanged when false
+}
+
+type namedRes struct {
+	name string
+	k    kind
+	opt  bool
+}
+
+// zero value of a kind, as Gallina
+func (k kind) zero() string {
+	switch k.k {
+	case "int", "float":
+		return "0"
+	case "bool":
+		return "false"
+	case "string":
+		return "\"\"%string"
+	case "error":
+		return "(Ok tt)"
+	case "slice":
+		return "[]"
+	case "ptr", "bigint":
+		return "None"
+	case "time":
+		return "time_zero"
+	}
+	panic(unsupported("no zero value for kind " + k.k))
+}
+
+// govalCtor names the constructor of base/GoNum.v's goval for a Go type.
+func govalCtor(t types.Type) (string, bool) {
+	if t == nil {
+		return "", false
+	}
+	if p, ok := t.(*types.Pointer); ok {
+		if c, ok := govalCtor(p.Elem()); ok && !strings.HasPrefix(c, "G_p") {
+			return "G_p" + strings.TrimPrefix(c, "G_"), true
+		}
+		return "", false
+	}
+	if n, ok := t.(*types.Named); ok && n.Obj().Pkg() != nil {
+		switch n.Obj().Pkg().Path() + "." + n.Obj().Name() {
+		case "math/big.Int":
+			return "G_bigint", true
+		case "math/big.Float":
+			return "G_bigfloat", true
+		case "time.Time":
+			return "G_time", true
+		case "time.Duration":
+			return "G_duration", true
+		}
+		return "", false
+	}
+	if b, ok := t.(*types.Basic); ok {
+		switch b.Kind() {
+		case types.Int, types.Int8, types.Int16, types.Int32, types.Int64, types.Uint, types.Uint8, types.Uint16, types.Uint32, types.Uint64,
+			types.String, types.Float32, types.Float64:
+			return "G_" + b.Name(), true
+		case types.UntypedNil:
+			return "G_nil", true
+		}
+	}
+	return "", false
+}
+
+// godstCtor names the constructor of godst for a pointer type.
+func godstCtor(t types.Type) (string, bool) {
+	p, ok := t.(*types.Pointer)
+	if !ok {
+		return "", false
+	}
+	if i, ok := p.Elem().Underlying().(*types.Interface); ok && i.NumMethods() == 0 {
+		return "D_piface", true
+	}
+	c, ok := govalCtor(p.Elem())
+	if !ok || strings.HasPrefix(c, "G_p") {
+		return "", false
+	}
+	return "D_p" + strings.TrimPrefix(c, "G_"), true
+}
+
+// isErrCtor: a package function that can only return a non-nil error (every return is fmt.Errorf / errors.New).
+func (t *tr) isErrCtor(obj *types.Func) bool {
+	sig := obj.Type().(*types.Signature)
+	if sig.Results().Len() != 1 || kindOf(sig.Results().At(0).Type()).k != "error" {
+		return false
+	}
+	for _, f := range t.p.files {
+		for _, d := range f.Decls {
+			fd, ok := d.(*ast.FuncDecl)
+			if !ok || fd.Recv != nil || fd.Body == nil || t.p.info.Defs[fd.Name] != obj {
+				continue
+			}
+			good := true
+			nret := 0
+			ast.Inspect(fd.Body, func(n ast.Node) bool {
+				r, ok := n.(*ast.ReturnStmt)
+				if !ok {
+					return true
+				}
+				nret++
+				if len(r.Results) != 1 {
+					good = false
+					return true
+				}
+				c, ok := r.Results[0].(*ast.CallExpr)
+				if !ok {
+					good = false
+					return true
+				}
+				src := t.p.srcOf(c.Fun)
+				if src != "fmt.Errorf" && src != "errors.New" {
+					good = false
+				}
+				return true
+			})
+			return good && nret > 0
+		}
+	}
+	return false
+}
+
+// errExpr translates an expression of type error: nil -> (Ok tt); a variable -> itself; an always-failing
+// constructor or a package-level error value -> Err.
+func (t *tr) errExpr(e ast.Expr) string {
+	if isNil(e) {
+		return "(Ok tt)"
+	}
+	switch x := e.(type) {
+	case *ast.ParenExpr:
+		return t.errExpr(x.X)
+	case *ast.Ident:
+		if v, ok := t.p.info.Uses[x].(*types.Var); ok {
+			if v.Parent() == t.p.pkg.Scope() {
+				// package-level error value: must be initialised with errors.New / fmt.Errorf
+				if t.pkgErrVar(v) {
+					return "Err"
+				}
+				t.fail(e, "package-level error variable %s is not a constant error", x.Name)
+			}
+			return coqIdent(v.Name())
+		}
+	case *ast.CallExpr:
+		if id, ok := x.Fun.(*ast.Ident); ok {
+			if f, ok := t.p.info.Uses[id].(*types.Func); ok && f.Pkg() == t.p.pkg {
+				if t.isErrCtor(f) {
+					return "Err"
+				}
+				// a translated function returning only an error
+				return t.call(x)
+			}
+		}
+		src := t.p.srcOf(x.Fun)
+		if src == "fmt.Errorf" || src == "errors.New" {
+			return "Err"
+		}
+	}
+	t.fail(e, "error-valued expression")
+	return ""
+}
+
+func (t *tr) pkgErrVar(v *types.Var) bool {
+	for _, f := range t.p.files {
+		for _, d := range f.Decls {
+			gd, ok := d.(*ast.GenDecl)
+			if !ok || gd.Tok != token.VAR {
+				continue
+			}
+			for _, s := range gd.Specs {
+				vs := s.(*ast.ValueSpec)
+				for i, n := range vs.Names {
+					if t.p.info.Defs[n] != v || i >= len(vs.Values) {
+						continue
+					}
+					c, ok := vs.Values[i].(*ast.CallExpr)
+					if !ok {
+						return false
+					}
+					src := t.p.srcOf(c.Fun)
+					return src == "errors.New" || src == "fmt.Errorf"
+				}
+			}
+		}
+	}
+	return false
+}
+
+// optIdent reports whether e is a variable held as an option.
+func (t *tr) optIdent(e ast.Expr) (string, bool) {
+	for {
+		p, ok := e.(*ast.ParenExpr)
+		if !ok {
+			break
+		}
+		e = p.X
+	}
+	id, ok := e.(*ast.Ident)
+	if !ok {
+		return "", false
+	}
+	if _, ok := t.p.info.Uses[id].(*types.Var); !ok {
+		return "", false
+	}
+	if t.optVars[id.Name] {
+		return id.Name, true
+	}
+	return "", false
+}
+
+// needNonNil fails unless the pointer variable is known to be non-nil here (Go would panic otherwise).
+func (t *tr) needNonNil(n ast.Node, name string) {
+	if t.nonNil[name] <= 0 {
+		t.fail(n, "pointer %s used where it is not known to be non-nil (Go would panic on nil)", name)
+	}
+}
+
+// condGuards: pointer variables known non-nil when cond is true / false.
+func (t *tr) condGuards(cond ast.Expr) (whenTrue, whenFalse []string) {
+	switch x := cond.(type) {
+	case *ast.ParenExpr:
+		return t.condGuards(x.X)
+	case *ast.Ident:
+		if p, ok := t.nilAlias[x.Name]; ok {
+			return nil, []string{p}
+		}
+	case *ast.UnaryExpr:
+		if x.Op == token.NOT {
+			a, b := t.condGuards(x.X)
+			return b, a
+		}
+	case *ast.BinaryExpr:
+		switch x.Op {
+		case token.LAND:
+			a1, _ := t.condGuards(x.X)
+			a2, _ := t.condGuards(x.Y)
+			return append(a1, a2...), nil
+		case token.LOR:
+			_, b1 := t.condGuards(x.X)
+			_, b2 := t.condGuards(x.Y)
+			return nil, append(b1, b2...)
+		case token.EQL, token.NEQ:
+			var name string
+			if isNil(x.Y) {
+				if id, ok := x.X.(*ast.Ident); ok && (t.optVars[id.Name] || t.destNil[id.Name]) {
+					name = id.Name
+				}
+			}
+			if name != "" {
+				if x.Op == token.NEQ {
+					return []string{name}, nil
+				}
+				return nil, []string{name}
+			}
+		}
+	}
+	return nil, nil
+}
+
+func (t *tr) withGuards(g []string, f func() string) string {
+	for _, n := range g {
+		t.nonNil[n]++
+	}
+	s := f()
+	for _, n := range g {
+		t.nonNil[n]--
+	}
+	return s
 }
 
 func (t *tr) fail(n ast.Node, format string, a ...interface{}) {
@@ -189,6 +504,15 @@ func (t *tr) expr(e ast.Expr) string {
 			return coqIdent(c.Name())
 		}
 	}
+	if t.ext {
+		if tv, ok := t.p.info.Types[e]; ok && tv.Value != nil && kindOf(tv.Type).k == "float" {
+			// floats are carried as IEEE bit patterns: only the constant 0 (= +0.0, all bits clear) is supported
+			if constant.Sign(tv.Value) != 0 {
+				t.fail(e, "floating-point constant other than 0")
+			}
+			return "0"
+		}
+	}
 	if s, ok := t.constExpr(e); ok {
 		return s
 	}
@@ -229,10 +553,37 @@ func (t *tr) expr(e ast.Expr) string {
 			}
 			return "[" + strings.Join(parts, "; ") + "]"
 		}
+		if t.ext && len(x.Elts) == 0 {
+			switch k.k {
+			case "bigintval":
+				return "0"
+			case "bigfloatval":
+				return "(0, 0)"
+			case "time":
+				return "time_zero"
+			}
+		}
 	case *ast.StarExpr:
+		if t.ext {
+			if name, ok := t.optIdent(x.X); ok {
+				t.needNonNil(e, name)
+				k := kindOf(t.typeOf(x.X))
+				switch k.k {
+				case "bigint":
+					return "(unopt 0 " + coqIdent(name) + ")"
+				case "ptr":
+					return "(unopt " + k.elem.zero() + " " + coqIdent(name) + ")"
+				}
+				t.fail(e, "dereference of %s", k.k)
+			}
+		}
 		// *val where val is *big.Int: same mathematical integer
 		if kindOf(t.typeOf(x.X)).k == "bigint" {
 			return t.expr(x.X)
+		}
+	case *ast.IndexExpr:
+		if t.ext && kindOf(t.typeOf(x.X)).k == "slice" && kindOf(t.typeOf(x.X)).elem.k == "int" {
+			return "(nth_Z " + t.expr(x.X) + " " + t.expr(x.Index) + ")"
 		}
 	}
 	t.fail(e, "expression %T", e)
@@ -240,6 +591,41 @@ func (t *tr) expr(e ast.Expr) string {
 }
 
 func (t *tr) binary(x *ast.BinaryExpr) string {
+	if t.ext && (x.Op == token.EQL || x.Op == token.NEQ) && (isNil(x.Y) || isNil(x.X)) {
+		o := x.X
+		if isNil(x.X) {
+			o = x.Y
+		}
+		var s string
+		if id, ok := o.(*ast.Ident); ok && t.destNil[id.Name] {
+			s = coqIdent(id.Name)
+		} else if name, ok := t.optIdent(o); ok {
+			s = "(isNone " + coqIdent(name) + ")"
+		} else if kindOf(t.typeOf(o)).k == "error" {
+			s = "(is_ok " + t.errExpr(o) + ")"
+		} else {
+			t.fail(x, "comparison with nil of %s", kindOf(t.typeOf(o)).k)
+		}
+		if x.Op == token.NEQ {
+			return "(negb " + s + ")"
+		}
+		return s
+	}
+	if t.ext && kindOf(t.typeOf(x.X)).k == "float" {
+		fk := kindOf(t.typeOf(x.X))
+		if fk.bits == 0 {
+			fk = kindOf(t.typeOf(x.Y))
+		}
+		if fk.bits == 64 && (x.Op == token.EQL || x.Op == token.NEQ) {
+			t.usesO = true
+			s := "(o_f64_eqb O " + t.expr(x.X) + " " + t.expr(x.Y) + ")"
+			if x.Op == token.NEQ {
+				return "(negb " + s + ")"
+			}
+			return s
+		}
+		t.fail(x, "floating-point operator %s on %d bits", x.Op, fk.bits)
+	}
 	l, r := t.expr(x.X), t.expr(x.Y)
 	ok := kindOf(t.typeOf(x.X)) // operand kind
 	if ok.k == "int" && ok.bits == 0 {
@@ -308,6 +694,19 @@ func (t *tr) binary(x *ast.BinaryExpr) string {
 func (t *tr) args(xs []ast.Expr) string {
 	var b strings.Builder
 	for _, a := range xs {
+		if t.ext {
+			if k := kindOf(t.typeOf(a)); k.k == "other" {
+				continue // dropped on both sides (definition and call), e.g. *time.Location
+			}
+			if k := kindOf(t.typeOf(a)); k.k == "iface" || k.k == "error" {
+				id, ok := a.(*ast.Ident)
+				if !ok {
+					t.fail(a, "interface-typed argument must be a variable")
+				}
+				b.WriteString(" " + coqIdent(id.Name))
+				continue
+			}
+		}
 		b.WriteString(" ")
 		s := t.expr(a)
 		if strings.ContainsAny(s, " ") && !strings.HasPrefix(s, "(") && !strings.HasPrefix(s, "[") && !strings.HasPrefix(s, "\"") {
@@ -334,6 +733,15 @@ func (t *tr) call(x *ast.CallExpr) string {
 			return a
 		case to.k == "bool" && from.k == "bool":
 			return a
+		case t.ext && to.k == "float" && from.k == "float":
+			if from.bits == 0 || to.bits == from.bits {
+				return a
+			}
+			t.usesO = true
+			if to.bits == 32 {
+				return "(o_f64_to_f32 O " + a + ")"
+			}
+			return "(o_f32_to_f64 O " + a + ")"
 		}
 		t.fail(x, "conversion %s -> %s", from.k, to.k)
 	}
@@ -379,6 +787,16 @@ func (t *tr) call(x *ast.CallExpr) string {
 			}
 		}
 	}
+	if t.ext {
+		switch t.p.srcOf(x.Fun) {
+		case "binary.BigEndian.Uint64":
+			return "(get_be 8 " + t.expr(x.Args[0]) + ")"
+		case "binary.BigEndian.Uint32":
+			return "(get_be 4 " + t.expr(x.Args[0]) + ")"
+		case "binary.BigEndian.Uint16":
+			return "(get_be 2 " + t.expr(x.Args[0]) + ")"
+		}
+	}
 	t.fail(x, "call")
 	return ""
 }
@@ -417,12 +835,35 @@ func terminates(stmts []ast.Stmt) bool {
 			}
 		}
 		return hasDefault
+	case *ast.TypeSwitchStmt:
+		hasDefault := false
+		for _, c := range s.Body.List {
+			cc := c.(*ast.CaseClause)
+			if cc.List == nil {
+				hasDefault = true
+			}
+			if !terminates(cc.Body) {
+				return false
+			}
+		}
+		return hasDefault
 	}
 	return false
 }
 
 // assigned collects variables (declared outside) that a statement list assigns.
 func (t *tr) assigned(stmts []ast.Stmt, out map[string]bool) {
+	if t.ext {
+		local := map[string]bool{}
+		declared := map[string]bool{}
+		t.assignedExt(stmts, local, declared)
+		for v := range local {
+			if !declared[v] {
+				out[v] = true
+			}
+		}
+		return
+	}
 	for _, s := range stmts {
 		switch x := s.(type) {
 		case *ast.AssignStmt:
@@ -450,6 +891,118 @@ func (t *tr) assigned(stmts []ast.Stmt, out map[string]bool) {
 			}
 		}
 	}
+}
+
+// assignedExt: like assigned, for the extended subset.  Variables declared in the list itself are reported in
+// declared (they do not exist outside).
+func (t *tr) assignedExt(stmts []ast.Stmt, out, declared map[string]bool) {
+	sub := func(list []ast.Stmt, extraDeclared ...string) {
+		l, d := map[string]bool{}, map[string]bool{}
+		t.assignedExt(list, l, d)
+		for _, e := range extraDeclared {
+			d[e] = true
+		}
+		for v := range l {
+			if !d[v] {
+				out[v] = true
+			}
+		}
+	}
+	lhs := func(l ast.Expr) {
+		switch y := l.(type) {
+		case *ast.Ident:
+			if y.Name != "_" {
+				out[y.Name] = true
+			}
+		case *ast.StarExpr:
+			if t.storeVar != "" {
+				out[t.storeVar] = true
+			}
+		}
+	}
+	for _, s := range stmts {
+		switch x := s.(type) {
+		case *ast.AssignStmt:
+			if x.Tok == token.DEFINE {
+				for _, l := range x.Lhs {
+					if id, ok := l.(*ast.Ident); ok {
+						declared[id.Name] = true
+					}
+				}
+			} else {
+				for _, l := range x.Lhs {
+					lhs(l)
+				}
+			}
+		case *ast.DeclStmt:
+			if gd, ok := x.Decl.(*ast.GenDecl); ok {
+				for _, sp := range gd.Specs {
+					if vs, ok := sp.(*ast.ValueSpec); ok {
+						for _, n := range vs.Names {
+							declared[n.Name] = true
+						}
+					}
+				}
+			}
+		case *ast.ExprStmt:
+			if tgt := t.exprStmtTarget(x); tgt != "" {
+				out[tgt] = true
+			}
+		case *ast.IncDecStmt:
+			if id, ok := x.X.(*ast.Ident); ok {
+				out[id.Name] = true
+			}
+		case *ast.BlockStmt:
+			sub(x.List)
+		case *ast.IfStmt:
+			var initDecl []string
+			if x.Init != nil {
+				if a, ok := x.Init.(*ast.AssignStmt); ok && a.Tok == token.DEFINE {
+					for _, l := range a.Lhs {
+						if id, ok := l.(*ast.Ident); ok {
+							initDecl = append(initDecl, id.Name)
+						}
+					}
+				} else {
+					sub([]ast.Stmt{x.Init})
+				}
+			}
+			sub(x.Body.List, initDecl...)
+			if x.Else != nil {
+				sub([]ast.Stmt{x.Else}, initDecl...)
+			}
+		case *ast.SwitchStmt:
+			for _, c := range x.Body.List {
+				sub(c.(*ast.CaseClause).Body)
+			}
+		case *ast.TypeSwitchStmt:
+			for _, c := range x.Body.List {
+				sub(c.(*ast.CaseClause).Body)
+			}
+		}
+	}
+}
+
+// exprStmtTarget: the variable an expression statement updates ("" if it is not a supported update).
+//   d.SetInt64(v) / d.SetFloat64(v) on a destination pointer -> the store variable
+//   binary.BigEndian.PutUintN(dest, v)                        -> dest
+func (t *tr) exprStmtTarget(x *ast.ExprStmt) string {
+	c, ok := x.X.(*ast.CallExpr)
+	if !ok {
+		return ""
+	}
+	src := t.p.srcOf(c.Fun)
+	if strings.HasPrefix(src, "binary.BigEndian.PutUint") && len(c.Args) == 2 {
+		if id, ok := c.Args[0].(*ast.Ident); ok {
+			return id.Name
+		}
+	}
+	if f, ok := c.Fun.(*ast.SelectorExpr); ok {
+		if _, ok := f.X.(*ast.Ident); ok && t.storeVar != "" && (f.Sel.Name == "SetInt64" || f.Sel.Name == "SetFloat64") {
+			return t.storeVar
+		}
+	}
+	return ""
 }
 
 func (t *tr) ret(r *ast.ReturnStmt) string {
@@ -527,6 +1080,11 @@ func (t *tr) block(stmts []ast.Stmt, rest func() string) string {
 	}
 	s := stmts[0]
 	next := func() string { return t.block(stmts[1:], rest) }
+	if t.ext {
+		if out, ok := t.blockExt(stmts, rest); ok {
+			return out
+		}
+	}
 	switch x := s.(type) {
 	case *ast.ReturnStmt:
 		return t.ret(x)
@@ -665,6 +1223,551 @@ func (t *tr) block(stmts []ast.Stmt, rest func() string) string {
 	}
 	t.fail(s, "statement %T", s)
 	return ""
+}
+
+// ---------------------------------------------------------------------------------------------
+// Extended subset (numeric unit): named results with bare return, type switches over a tagged
+// source / destination, stores through a destination pointer, if-with-init, multi-value assignment.
+
+func (t *tr) resultParts() []string {
+	var parts []string
+	for _, n := range t.named {
+		if n.k.k == "error" {
+			continue
+		}
+		parts = append(parts, coqIdent(n.name))
+	}
+	return parts
+}
+
+func tupleExpr(parts []string) string {
+	if len(parts) == 1 {
+		return parts[0]
+	}
+	return "(" + strings.Join(parts, ", ") + ")"
+}
+
+// isStoring: func(..., dest interface{}) (err error) -- what it stores through dest is part of its Gallina result.
+func isStoringSig(sig *types.Signature) string {
+	if sig.Results().Len() != 1 || kindOf(sig.Results().At(0).Type()).k != "error" {
+		return ""
+	}
+	for i := 0; i < sig.Params().Len(); i++ {
+		v := sig.Params().At(i)
+		if v.Name() == "dest" && kindOf(v.Type()).k == "iface" {
+			return v.Name()
+		}
+	}
+	return ""
+}
+
+func (t *tr) calleeSig(c *ast.CallExpr) *types.Signature {
+	if id, ok := c.Fun.(*ast.Ident); ok {
+		if f, ok := t.p.info.Uses[id].(*types.Func); ok && f.Pkg() == t.p.pkg {
+			return f.Type().(*types.Signature)
+		}
+	}
+	return nil
+}
+
+func (t *tr) retExt(r *ast.ReturnStmt) string {
+	res := t.sig.Results()
+	if len(r.Results) == 0 {
+		if len(t.named) == 0 && t.storeVar == "" {
+			t.fail(r, "bare return without named results")
+		}
+		var errName string
+		for _, n := range t.named {
+			if n.k.k == "error" {
+				errName = coqIdent(n.name)
+			}
+		}
+		if t.storeVar != "" {
+			return "(ret_res " + errName + " " + t.storeVar + ")"
+		}
+		parts := t.resultParts()
+		if errName != "" {
+			return "(ret_res " + errName + " " + tupleExpr(parts) + ")"
+		}
+		return tupleExpr(parts)
+	}
+	if t.storeVar != "" {
+		if len(r.Results) != 1 {
+			t.fail(r, "return arity")
+		}
+		if c, ok := r.Results[0].(*ast.CallExpr); ok {
+			if sg := t.calleeSig(c); sg != nil && isStoringSig(sg) != "" {
+				return t.call(c) // forwards value stored and error
+			}
+		}
+		return "(ret_res " + t.errExpr(r.Results[0]) + " " + t.storeVar + ")"
+	}
+	if len(r.Results) == 1 && res.Len() > 1 {
+		return t.expr(r.Results[0])
+	}
+	if res.Len() != len(r.Results) {
+		t.fail(r, "return arity")
+	}
+	last := res.At(res.Len() - 1)
+	if kindOf(last.Type()).k == "error" {
+		e := t.errExpr(r.Results[len(r.Results)-1])
+		if e == "Err" {
+			return "Err"
+		}
+		if res.Len() == 1 {
+			return e
+		}
+		var parts []string
+		for i, x := range r.Results[:len(r.Results)-1] {
+			parts = append(parts, t.valueFor(x, t.resOpt(t.sig, i)))
+		}
+		if e == "(Ok tt)" {
+			return "(Ok " + tupleExpr(parts) + ")"
+		}
+		return "(ret_res " + e + " " + tupleExpr(parts) + ")"
+	}
+	var parts []string
+	for i, x := range r.Results {
+		parts = append(parts, t.valueFor(x, t.resOpt(t.sig, i)))
+	}
+	return tupleExpr(parts)
+}
+
+// resOpt: result i of sig is held as an option (a named *big.Int result, nil meaning "no value").
+func (t *tr) resOpt(sig *types.Signature, i int) bool {
+	v := sig.Results().At(i)
+	return v.Name() != "" && kindOf(v.Type()).k == "bigint"
+}
+
+// valueFor translates e for a position that is (or is not) an option.
+func (t *tr) valueFor(e ast.Expr, wantOpt bool) string {
+	if !wantOpt {
+		return t.expr(e)
+	}
+	if isNil(e) {
+		return "None"
+	}
+	if name, ok := t.optIdent(e); ok {
+		return coqIdent(name)
+	}
+	return "(Some " + t.expr(e) + ")"
+}
+
+// storeExpr builds the goval stored by "*d = e" / "*d, err = f()" (tmp already translated when e is nil).
+func (t *tr) storeValue(n ast.Node, elem types.Type, e ast.Expr, tmp string) string {
+	if i, ok := elem.Underlying().(*types.Interface); ok && i.NumMethods() == 0 {
+		if e == nil {
+			t.fail(n, "multi-value store into an interface")
+		}
+		if isNil(e) {
+			return "G_nil"
+		}
+		c, ok := govalCtor(t.typeOf(e))
+		if !ok {
+			t.fail(n, "value of type %s stored into an interface", t.typeOf(e))
+		}
+		if strings.HasPrefix(c, "G_p") {
+			if name, ok := t.optIdent(e); ok {
+				return "(" + c + " " + coqIdent(name) + ")"
+			}
+			return "(" + c + " (Some " + t.expr(e) + "))"
+		}
+		return "(" + c + " " + t.expr(e) + ")"
+	}
+	c, ok := govalCtor(elem)
+	if !ok || strings.HasPrefix(c, "G_p") {
+		t.fail(n, "store into *%s", elem)
+	}
+	if e == nil {
+		return "(" + c + " " + tmp + ")"
+	}
+	return "(" + c + " " + t.expr(e) + ")"
+}
+
+func (t *tr) destIdent(e ast.Expr) (string, bool) {
+	st, ok := e.(*ast.StarExpr)
+	if !ok {
+		return "", false
+	}
+	id, ok := st.X.(*ast.Ident)
+	if !ok || !t.destNil[id.Name] {
+		return "", false
+	}
+	return id.Name, true
+}
+
+func (t *tr) blockExt(stmts []ast.Stmt, rest func() string) (string, bool) {
+	s := stmts[0]
+	next := func() string { return t.block(stmts[1:], rest) }
+	let := func(name, rhs string) string {
+		return "(let " + coqIdent(name) + " := " + rhs + " in\n  " + next() + ")"
+	}
+	switch x := s.(type) {
+	case *ast.ReturnStmt:
+		return t.retExt(x), true
+	case *ast.DeclStmt:
+		gd, ok := x.Decl.(*ast.GenDecl)
+		if !ok || gd.Tok != token.VAR {
+			t.fail(x, "declaration")
+		}
+		var names []string
+		var zeros []string
+		for _, sp := range gd.Specs {
+			vs := sp.(*ast.ValueSpec)
+			if len(vs.Values) != 0 {
+				t.fail(x, "var with initialiser")
+			}
+			for _, n := range vs.Names {
+				names = append(names, n.Name)
+				zeros = append(zeros, kindOf(t.p.info.Defs[n].Type()).zero())
+			}
+		}
+		out := next()
+		for i := len(names) - 1; i >= 0; i-- {
+			out = "(let " + coqIdent(names[i]) + " := " + zeros[i] + " in\n  " + out + ")"
+		}
+		return out, true
+	case *ast.ExprStmt:
+		c, ok := x.X.(*ast.CallExpr)
+		if !ok {
+			t.fail(x, "expression statement")
+		}
+		src := t.p.srcOf(c.Fun)
+		if strings.HasPrefix(src, "binary.BigEndian.PutUint") && len(c.Args) == 2 {
+			n := map[string]string{"binary.BigEndian.PutUint64": "8", "binary.BigEndian.PutUint32": "4", "binary.BigEndian.PutUint16": "2"}[src]
+			id, ok := c.Args[0].(*ast.Ident)
+			if n == "" || !ok {
+				t.fail(x, "PutUint form")
+			}
+			return let(id.Name, "(put_be "+n+" "+coqIdent(id.Name)+" "+t.expr(c.Args[1])+")"), true
+		}
+		if f, ok := c.Fun.(*ast.SelectorExpr); ok {
+			if id, ok := f.X.(*ast.Ident); ok && t.destNil[id.Name] && len(c.Args) == 1 {
+				t.needNonNil(x, id.Name)
+				switch f.Sel.Name {
+				case "SetInt64":
+					if godst, _ := godstCtor(t.typeOf(f.X)); godst == "D_pbigint" {
+						return let(t.storeVar, "(Some (G_bigint "+t.expr(c.Args[0])+"))"), true
+					}
+				case "SetFloat64":
+					if godst, _ := godstCtor(t.typeOf(f.X)); godst == "D_pbigfloat" {
+						t.usesO = true
+						return let(t.storeVar, "(Some (G_bigfloat (o_BigFloat_SetFloat64 O "+t.expr(c.Args[0])+")))"), true
+					}
+				}
+			}
+		}
+		t.fail(x, "expression statement %s", src)
+	case *ast.AssignStmt:
+		if x.Tok != token.DEFINE && x.Tok != token.ASSIGN {
+			return "", false
+		}
+		if len(x.Lhs) == 1 && len(x.Rhs) == 1 {
+			if d, ok := t.destIdent(x.Lhs[0]); ok {
+				t.needNonNil(x, d)
+				elem := t.typeOf(x.Lhs[0])
+				return let(t.storeVar, "(Some "+t.storeValue(x, elem, x.Rhs[0], "")+")"), true
+			}
+			id, ok := x.Lhs[0].(*ast.Ident)
+			if !ok {
+				t.fail(x, "assignment target")
+			}
+			lk := kindOf(t.typeOf(x.Lhs[0]))
+			if x.Tok == token.DEFINE {
+				lk = kindOf(t.typeOf(x.Rhs[0]))
+			}
+			delete(t.nilAlias, id.Name)
+			if lk.k == "error" {
+				return let(id.Name, t.errExpr(x.Rhs[0])), true
+			}
+			if t.optVars[id.Name] {
+				return let(id.Name, t.valueFor(x.Rhs[0], true)), true
+			}
+			if lk.k == "bool" {
+				if b, ok := x.Rhs[0].(*ast.BinaryExpr); ok && b.Op == token.EQL && isNil(b.Y) {
+					if name, ok := t.optIdent(b.X); ok {
+						rhs := t.expr(x.Rhs[0])
+						t.nilAlias[id.Name] = name
+						return let(id.Name, rhs), true
+					}
+				}
+			}
+			return let(id.Name, t.expr(x.Rhs[0])), true
+		}
+		if len(x.Rhs) == 1 && len(x.Lhs) >= 2 {
+			call, ok := x.Rhs[0].(*ast.CallExpr)
+			if !ok {
+				t.fail(x, "multi-value assignment from a non-call")
+			}
+			tup, ok := t.typeOf(call).(*types.Tuple)
+			if !ok || tup.Len() != len(x.Lhs) {
+				t.fail(x, "multi-value assignment arity")
+			}
+			hasErr := kindOf(tup.At(tup.Len()-1).Type()).k == "error"
+			rhs := t.expr(call)
+			sg := t.calleeSig(call)
+			// names bound by the let-pattern, and the follow-up lets (stores, Some-wrapping)
+			var pat, dfl []string
+			var post []string
+			n := len(x.Lhs)
+			if hasErr {
+				n--
+			}
+			for i := 0; i < n; i++ {
+				l := x.Lhs[i]
+				vk := kindOf(tup.At(i).Type())
+				calleeOpt := sg != nil && t.resOpt(sg, i)
+				if d, ok := t.destIdent(l); ok {
+					t.needNonNil(x, d)
+					tmp := fmt.Sprintf("tmp%d_", i)
+					pat = append(pat, tmp)
+					dfl = append(dfl, vk.zero())
+					post = append(post, "let "+t.storeVar+" := (Some "+t.storeValue(x, t.typeOf(l), nil, tmp)+") in")
+					continue
+				}
+				id, ok := l.(*ast.Ident)
+				if !ok {
+					t.fail(x, "assignment target")
+				}
+				if id.Name == "_" {
+					pat = append(pat, "_")
+					dfl = append(dfl, vk.zero())
+					continue
+				}
+				delete(t.nilAlias, id.Name)
+				if t.optVars[id.Name] && !calleeOpt {
+					tmp := fmt.Sprintf("tmp%d_", i)
+					pat = append(pat, tmp)
+					dfl = append(dfl, "0")
+					if hasErr {
+						en := coqIdent(x.Lhs[len(x.Lhs)-1].(*ast.Ident).Name)
+						post = append(post, "let "+coqIdent(id.Name)+" := (if is_ok "+en+" then Some "+tmp+" else None) in")
+					} else {
+						post = append(post, "let "+coqIdent(id.Name)+" := (Some "+tmp+") in")
+					}
+					continue
+				}
+				pat = append(pat, coqIdent(id.Name))
+				if calleeOpt {
+					dfl = append(dfl, "None")
+				} else {
+					dfl = append(dfl, vk.zero())
+				}
+			}
+			var head string
+			if hasErr {
+				eid, ok := x.Lhs[len(x.Lhs)-1].(*ast.Ident)
+				if !ok {
+					t.fail(x, "error target")
+				}
+				en := "_"
+				if eid.Name != "_" {
+					en = coqIdent(eid.Name)
+				}
+				head = "let '(" + tupleExpr(pat) + ", " + en + ") := res_split " + tupleExpr(dfl) + " " + rhs + " in"
+			} else {
+				head = "let '" + tupleExpr(pat) + " := " + rhs + " in"
+				if len(pat) == 1 {
+					head = "let " + pat[0] + " := " + rhs + " in"
+				}
+			}
+			out := head
+			for _, p := range post {
+				out += "\n  " + p
+			}
+			return "(" + out + "\n  " + next() + ")", true
+		}
+		t.fail(x, "assignment form")
+	case *ast.IfStmt:
+		if x.Init != nil {
+			cp := *x
+			cp.Init = nil
+			lst := append([]ast.Stmt{x.Init, &cp}, stmts[1:]...)
+			return t.block(lst, rest), true
+		}
+		c := t.expr(x.Cond)
+		gT, gF := t.condGuards(x.Cond)
+		var els []ast.Stmt
+		if x.Else != nil {
+			switch e := x.Else.(type) {
+			case *ast.BlockStmt:
+				els = e.List
+			default:
+				els = []ast.Stmt{e}
+			}
+		}
+		tT, tE := terminates(x.Body.List), terminates(els)
+		thenB := func(k func() string) string {
+			return t.withGuards(gT, func() string { return t.block(x.Body.List, k) })
+		}
+		elseB := func(k func() string) string {
+			return t.withGuards(gF, func() string { return t.block(els, k) })
+		}
+		switch {
+		case tT && tE:
+			return "(if " + c + " then " + thenB(nil) + "\n  else " + elseB(nil) + ")", true
+		case tT:
+			return "(if " + c + " then " + thenB(nil) + "\n  else " + elseB(next) + ")", true
+		case tE:
+			return "(if " + c + " then " + thenB(next) + "\n  else " + elseB(nil) + ")", true
+		default:
+			set := map[string]bool{}
+			t.assigned(x.Body.List, set)
+			t.assigned(els, set)
+			var vars []string
+			for v := range set {
+				vars = append(vars, v)
+			}
+			sort.Strings(vars)
+			if len(vars) == 0 {
+				return next(), true
+			}
+			for _, v := range vars {
+				delete(t.nilAlias, v)
+			}
+			tup := func() string { return tuple(vars) }
+			rhs := "(if " + c + " then " + thenB(tup) + " else " + elseB(tup) + ")"
+			return letTuple(vars, rhs, next()), true
+		}
+	case *ast.TypeSwitchStmt:
+		return t.typeSwitch(x, stmts, rest), true
+	}
+	return "", false
+}
+
+func (t *tr) typeSwitch(x *ast.TypeSwitchStmt, stmts []ast.Stmt, rest func() string) string {
+	next := func() string { return t.block(stmts[1:], rest) }
+	if x.Init != nil {
+		t.fail(x, "type switch with init")
+	}
+	var bind string
+	var ta *ast.TypeAssertExpr
+	switch a := x.Assign.(type) {
+	case *ast.AssignStmt:
+		bind = a.Lhs[0].(*ast.Ident).Name
+		ta, _ = a.Rhs[0].(*ast.TypeAssertExpr)
+	case *ast.ExprStmt:
+		ta, _ = a.X.(*ast.TypeAssertExpr)
+	}
+	if ta == nil {
+		t.fail(x, "type switch form")
+	}
+	tagID, ok := ta.X.(*ast.Ident)
+	if !ok {
+		t.fail(x, "type switch on a non-variable")
+	}
+	isDest := t.destParam != "" && tagID.Name == t.destParam
+	var def *ast.CaseClause
+	var clauses []*ast.CaseClause
+	anyTerm, allTerm := false, true
+	for _, c := range x.Body.List {
+		cc := c.(*ast.CaseClause)
+		if cc.List == nil {
+			def = cc
+		} else {
+			clauses = append(clauses, cc)
+		}
+		if terminates(cc.Body) {
+			anyTerm = true
+		} else {
+			allTerm = false
+		}
+	}
+	if def == nil {
+		allTerm = false
+	}
+	follows := !(rest == nil && len(stmts) == 1)
+	var vars []string
+	var cont func(body []ast.Stmt) func() string
+	switch {
+	case allTerm:
+		cont = func([]ast.Stmt) func() string { return nil }
+	case anyTerm || !follows:
+		cont = func(body []ast.Stmt) func() string {
+			if terminates(body) || !follows {
+				return nil
+			}
+			return next
+		}
+	default:
+		set := map[string]bool{}
+		for _, c := range x.Body.List {
+			t.assigned(c.(*ast.CaseClause).Body, set)
+		}
+		for v := range set {
+			vars = append(vars, v)
+		}
+		sort.Strings(vars)
+		if len(vars) == 0 {
+			return next()
+		}
+		tup := func() string { return tuple(vars) }
+		cont = func([]ast.Stmt) func() string { return tup }
+	}
+	var b strings.Builder
+	b.WriteString("match " + coqIdent(tagID.Name) + " with")
+	pv := "_"
+	if bind != "" {
+		pv = coqIdent(bind)
+	}
+	seen := map[string]bool{}
+	for _, cc := range clauses {
+		if len(cc.List) != 1 {
+			t.fail(cc, "case with several types")
+		}
+		var pattern string
+		undo := func() {}
+		switch {
+		case isNil(cc.List[0]):
+			if isDest {
+				t.fail(cc, "case nil in a destination switch")
+			}
+			pattern = "G_nil"
+		case isDest:
+			ctor, ok := godstCtor(t.typeOf(cc.List[0]))
+			if !ok {
+				t.fail(cc, "destination type %s has no constructor in godst", t.typeOf(cc.List[0]))
+			}
+			pattern = ctor + " " + pv
+			if bind != "" {
+				old := t.destNil[bind]
+				t.destNil[bind] = true
+				undo = func() { t.destNil[bind] = old }
+			}
+		default:
+			ty := t.typeOf(cc.List[0])
+			ctor, ok := govalCtor(ty)
+			if !ok {
+				t.fail(cc, "source type %s has no constructor in goval", ty)
+			}
+			pattern = ctor + " " + pv
+			if _, isPtr := ty.(*types.Pointer); isPtr && bind != "" {
+				old := t.optVars[bind]
+				t.optVars[bind] = true
+				undo = func() { t.optVars[bind] = old }
+			}
+		}
+		if seen[pattern] {
+			t.fail(cc, "duplicate case")
+		}
+		seen[pattern] = true
+		body := t.block(cc.Body, cont(cc.Body))
+		undo()
+		b.WriteString("\n  | " + pattern + " => " + body)
+	}
+	if def != nil {
+		b.WriteString("\n  | _ => " + t.block(def.Body, cont(def.Body)))
+	} else {
+		b.WriteString("\n  | _ => " + t.block(nil, cont(nil)))
+	}
+	b.WriteString("\n  end")
+	if vars != nil {
+		for _, v := range vars {
+			delete(t.nilAlias, v)
+		}
+		return letTuple(vars, "("+b.String()+")", next())
+	}
+	return "(" + b.String() + ")"
 }
 
 type coqDef struct {
